@@ -271,6 +271,336 @@ def maximizationOut {β : Type} (core : DiscreteFree α β → List Nat) (v : Di
 
 end Discrete
 
+/-! ## 3. time rescaling of the variational method (tsdate/rescaling.py) -/
+
+section Rescale
+variable {α : Type} [Add α] [Sub α] [Mul α] [Div α] [OfNat α 0] [OfNat α 1]
+  [LE α] [DecidableLE α] [LT α] [DecidableLT α]
+
+/-- functional update of one list entry (no-op out of range) -/
+def modifyAt {β : Type} (f : β → β) : Nat → List β → List β
+  | _, [] => []
+  | 0, x :: xs => f x :: xs
+  | n + 1, x :: xs => x :: modifyAt f n xs
+
+/-- `np.argsort(nodes_time)` as the sorted list of (time, node).  Ties may be ordered differently by
+numba's sort; everything computed from it below is tie-independent. -/
+def sortByTime (t : List α) : List (α × Nat) :=
+  t.zipIdx.mergeSort (fun a b => decide (a.1 ≤ b.1))
+
+/-- the loop `for i, j in zip(nodes_order[1:], nodes_order[:-1])` of `mutational_area`: a new epoch
+break at every strict increase of time; returns the appended breaks and the (node, epoch) assignments -/
+def epochWalk : α → Nat → List (α × Nat) → List α × List (Nat × Nat)
+  | _, _, [] => ([], [])
+  | prev, k, (t, i) :: rest =>
+    if prev < t then
+      let r := epochWalk t (k + 1) rest
+      (t :: r.1, (i, k + 1) :: r.2)
+    else
+      let r := epochWalk t k rest
+      (r.1, (i, k) :: r.2)
+
+/-- `epoch_breaks` (starting with the literal 0.0) and `nodes_index` -/
+def epochIndex (n : Nat) (srt : List (α × Nat)) : List α × List Nat :=
+  match srt with
+  | [] => ([0], List.replicate n 0)
+  | (t0, _) :: rest =>
+    let r := epochWalk t0 0 rest
+    (0 :: r.1, r.2.foldl (fun idx a => modifyAt (fun _ => a.2) a.1 idx) (List.replicate n 0))
+
+/-- `row += d`, `row -= d` on a two-column row -/
+def padd (d x : α × α) : α × α := (x.1 + d.1, x.2 + d.2)
+def psub (d x : α × α) : α × α := (x.1 - d.1, x.2 - d.2)
+
+/-- loop body over one edge `(p, c)` with likelihood row `(y, m)` of `mutational_area` -/
+def areaEdge (t : List α) (idx : List Nat) (ne : Nat) (acc : List (α × α)) (e : (Nat × Nat) × (α × α)) :
+    List (α × α) :=
+  let len := nth t e.1.1 - nth t e.1.2
+  if 0 < len then
+    let cnt : α × α := (e.2.1 / len, e.2.2)
+    let a := idx.getD e.1.2 0
+    let b := idx.getD e.1.1 0
+    let acc1 := if a < ne then modifyAt (padd cnt) a acc else acc
+    if b < ne then modifyAt (psub cnt) b acc1 else acc1
+  else acc
+
+/-- `mutational_area(nodes_time, likelihoods, edges_parent, edges_child)`
+→ `(counts, offset, duration, nodes_index)`; edges are `(parent, child)`. -/
+def mutArea (t : List α) (lik : List (α × α)) (edges : List (Nat × Nat)) :
+    List α × List α × List α × List Nat :=
+  let bi := epochIndex t.length (sortByTime t)
+  let ne := bi.1.length - 1
+  let ec := (edges.zip lik).foldl (areaEdge t bi.2 ne) (List.replicate ne (0, 0))
+  (cumsum (ec.map (fun x => x.1)), cumsum (ec.map (fun x => x.2)), diff bi.1, bi.2)
+
+/-- `_fixed_changepoints(counts, epochs)` (numba's `np.linspace(0, 1, n+1)[k]` is `0 + 1*(k/n)`) -/
+def fixedChangepoints (ofNat : Nat → α) (w : List α) (epochs : Nat) : List Nat :=
+  let Y := 0 :: cumsum w
+  let last := Y.getLast?.getD 0
+  let Z := Y.map (fun y => y / last)
+  let e := (List.range (epochs + 1)).map (fun k => searchRight Z (ofNat k / ofNat epochs) - 1)
+  let e0 := match e with
+    | [] => []
+    | _ :: r => 0 :: r
+  match e0.reverse with
+  | [] => []
+  | l :: r => (Nat.max l w.length :: r).reverse
+
+/-- `np.unique` on a list of indices -/
+def uniqueNat (xs : List Nat) : List Nat := (xs.mergeSort (fun a b => decide (a ≤ b))).eraseDups
+
+/-- `mutational_timescale(nodes_time, likelihoods, nodes_fixed, edges_parent, edges_child, max_intervals)`
+→ `(origin, adjust)` -/
+def mutTimescale (ofNat : Nat → α) (t : List α) (lik : List (α × α)) (edges : List (Nat × Nat))
+    (maxIntervals : Nat) : List α × List α :=
+  let ar := mutArea t lik edges
+  let counts := ar.1
+  let offset := ar.2.1
+  let duration := ar.2.2.1
+  let epochBreaks := 0 :: cumsum duration
+  let cp := uniqueNat (fixedChangepoints ofNat (List.zipWith (· * ·) offset duration) maxIntervals)
+  let adj := (cp.zip cp.tail).map (fun ij =>
+    sumRange duration ij.1 ij.2 * sumRange counts ij.1 ij.2 / sumRange offset ij.1 ij.2)
+  (cp.map (fun i => nth epochBreaks i), cumsum (0 :: adj))
+
+/-- `piecewise_scale_point_estimate(point_estimate, point_fixed, original_breaks, rescaled_breaks)` -/
+def piecewisePoint (x : List α) (fixed : List Bool) (orig resc : List α) : List α :=
+  let scal := List.zipWith (· / ·) (diff resc) (diff orig) ++ [0]
+  List.zipWith (fun xi f =>
+    if f then xi
+    else
+      let i := searchRight orig xi - 1
+      nth resc i + nth scal i * (xi - nth orig i)) x fixed
+
+/-- the loop of `ExpectationPropagation.rescale`: `rescale_iterations` rounds of
+`mutational_timescale` followed by `piecewise_scale_point_estimate` -/
+def rescaleLoop (ofNat : Nat → α) (lik : List (α × α)) (edges : List (Nat × Nat)) (fixed : List Bool)
+    (maxIntervals : Nat) : Nat → List α → List α
+  | 0, t => t
+  | n + 1, t =>
+    let ob := mutTimescale ofNat t lik edges maxIntervals
+    rescaleLoop ofNat lik edges fixed maxIntervals n (piecewisePoint t fixed ob.1 ob.2)
+
+end Rescale
+
+/-! ## 4. expectation propagation skeleton (tsdate/variational.py)
+
+Natural parameters of a gamma are pairs `(shape − 1, rate)`; a likelihood row is `(count, μ·span)`.
+The moment-matching projections (approx.py) are *parameters* of the model.  Block (unphased singleton)
+factors are not modelled (`singletons_phased=True`, the default, has none). -/
+
+section EP
+variable {α : Type} [Add α] [Sub α] [Mul α] [Div α] [OfNat α 0] [OfNat α 1]
+  [LE α] [DecidableLE α] [LT α] [DecidableLT α]
+
+/-- `x == 0.0` on numbers (both signed zeros) -/
+def isZero (x : α) : Bool := !(decide (x < 0)) && !(decide (0 < x))
+
+/-- Python's `min(a, b)` -/
+def pmin (a b : α) : α := if b < a then b else a
+
+def absA (x : α) : α := if x < 0 then 0 - x else x
+
+/-- scalar times a pair, pair minus pair, pair plus pair, pair over scalar -/
+def sc2 (d : α) (x : α × α) : α × α := (d * x.1, d * x.2)
+def sub2 (x y : α × α) : α × α := (x.1 - y.1, x.2 - y.2)
+def add2 (x y : α × α) : α × α := (x.1 + y.1, x.2 + y.2)
+def div2 (x : α × α) (d : α) : α × α := (x.1 / d, x.2 / d)
+
+/-- `_damp(x, y, s)`:
+
+    if np.all(y == 0.0) and np.all(x == 0.0): return 1.0
+    a = 1.0 if (1 + x[0] - y[0] > (1 + x[0]) * s) else (1 - s) * (1 + x[0]) / y[0]
+    b = 1.0 if (x[1] - y[1] > x[1] * s) else (1 - s) * x[1] / y[1]
+    d = min(a, b)
+-/
+def damp (x y : α × α) (s : α) : α :=
+  if isZero y.1 && isZero y.2 && isZero x.1 && isZero x.2 then 1
+  else
+    let a := if (1 + x.1) * s < 1 + x.1 - y.1 then 1 else (1 - s) * (1 + x.1) / y.1
+    let b := if x.2 * s < x.2 - y.2 then 1 else (1 - s) * x.2 / y.2
+    pmin a b
+
+/-- `_rescale(x, s)`:
+
+    if np.all(x == 0.0): return 1.0
+    if 1 + x[0] > s: return (s - 1) / x[0]
+    elif 1 + x[0] < 1 / s: return (1 / s - 1) / x[0]
+    return 1.0
+-/
+def rescaleEta (x : α × α) (s : α) : α :=
+  if isZero x.1 && isZero x.2 then 1
+  else if s < 1 + x.1 then (s - 1) / x.1
+  else if 1 + x.1 < 1 / s then (1 / s - 1) / x.1
+  else 1
+
+/-- Mutable state of the EP pass: node posteriors, per-edge (rootward, leafward) factors, the
+mixture-prior node factors and the per-node scale. -/
+structure EPState (α : Type) where
+  post : List (α × α)
+  edgeFac : List ((α × α) × (α × α))
+  nodeFac : List (α × α)
+  scale : List α
+
+def getP (xs : List (α × α)) (i : Nat) : α × α := xs.getD i (0, 0)
+def getF (xs : List ((α × α) × (α × α))) (i : Nat) : (α × α) × (α × α) := xs.getD i ((0, 0), (0, 0))
+
+/-- `_rescale_factors`: absorb the scale into the factors and reset it to one -/
+def rescaleFactors (edges : List (Nat × Nat)) (s : EPState α) : EPState α :=
+  { s with
+    edgeFac := List.zipWith (fun f e => (sc2 (nth s.scale e.1) f.1, sc2 (nth s.scale e.2) f.2)) s.edgeFac edges
+    nodeFac := List.zipWith (fun f sc => sc2 sc f) s.nodeFac s.scale
+    scale := s.scale.map (fun _ => 1) }
+
+/-- The projections of approx.py as parameters: `gamma_projection(pars_i, pars_j, pars_ij)`,
+`rootward_projection(t_j, pars_i, pars_ij)`, `leafward_projection(t_i, pars_j, pars_ij)`
+(normalising constants dropped; on invalid moments the real functions return the cavity unchanged). -/
+structure Projections (α : Type) where
+  gamma : α × α → α × α → α × α → (α × α) × (α × α)
+  rootward : α → α × α → α × α → α × α
+  leafward : α → α × α → α × α → α × α
+
+/-- the update of one side of an edge after the projection: factor and posterior/scale damping -/
+def absorb (maxShape : α) (s : EPState α) (ei : Nat) (rootSide : Bool) (u : Nat)
+    (delta : α) (cavity newPost : α × α) : EPState α :=
+  let f := getF s.edgeFac ei
+  let old := if rootSide then f.1 else f.2
+  let upd := add2 (sc2 (1 - delta) old) (div2 (sub2 newPost cavity) (nth s.scale u))
+  let f' := if rootSide then (upd, f.2) else (f.1, upd)
+  let eta := rescaleEta newPost maxShape
+  { s with
+    edgeFac := modifyAt (fun _ => f') ei s.edgeFac
+    post := modifyAt (fun _ => sc2 eta newPost) u s.post
+    scale := modifyAt (fun x => x * eta) u s.scale }
+
+/-- Loop body of `propagate_likelihood` for edge number `ei = (p, c)` (phased case):
+skip if both ends fixed; leafward update if the parent is fixed; rootward update if the child is fixed;
+joint `gamma_projection` otherwise.  `fixedAge u = some t` iff `constraints[u,LOWER] == constraints[u,UPPER] = t`. -/
+def edgeUpdate (P : Projections α) (edges : List (Nat × Nat)) (lik : List (α × α))
+    (fixedAge : List (Option α)) (maxShape minStep tiny : α) (s0 : EPState α) (ei : Nat) : EPState α :=
+  let e := edges.getD ei (0, 0)
+  let p := e.1
+  let c := e.2
+  let s := if nth s0.scale p < tiny || nth s0.scale c < tiny then rescaleFactors edges s0 else s0
+  let f := getF s.edgeFac ei
+  let l := getP lik ei
+  match fixedAge.getD p none, fixedAge.getD c none with
+  | some _, some _ => s
+  | some tp, none =>
+    let msg := sc2 (nth s.scale c) f.2
+    let delta := damp (getP s.post c) msg minStep
+    let cav := sub2 (getP s.post c) (sc2 delta msg)
+    let np := P.leafward tp cav (sc2 delta l)
+    absorb maxShape s ei false c delta cav np
+  | none, some tc =>
+    let msg := sc2 (nth s.scale p) f.1
+    let delta := damp (getP s.post p) msg minStep
+    let cav := sub2 (getP s.post p) (sc2 delta msg)
+    let np := P.rootward tc cav (sc2 delta l)
+    absorb maxShape s ei true p delta cav np
+  | none, none =>
+    let pmsg := sc2 (nth s.scale p) f.1
+    let cmsg := sc2 (nth s.scale c) f.2
+    let delta := pmin (damp (getP s.post p) pmsg minStep) (damp (getP s.post c) cmsg minStep)
+    let pcav := sub2 (getP s.post p) (sc2 delta pmsg)
+    let ccav := sub2 (getP s.post c) (sc2 delta cmsg)
+    let pr := P.gamma pcav ccav (sc2 delta l)
+    let s1 := absorb maxShape s ei true p delta pcav pr.1
+    absorb maxShape s1 ei false c delta ccav pr.2
+
+/-- `propagate_likelihood` over an edge order -/
+def likelihoodPass (P : Projections α) (edges : List (Nat × Nat)) (lik : List (α × α))
+    (fixedAge : List (Option α)) (maxShape minStep tiny : α) (order : List Nat) (s : EPState α) : EPState α :=
+  order.foldl (edgeUpdate P edges lik fixedAge maxShape minStep tiny) s
+
+/-- `np.mean` (numba: sequential sum over size) -/
+def meanL (ofNat : Nat → α) (xs : List α) : α := sumL xs / ofNat xs.length
+
+/-- the EM loop of `propagate_prior` (`delta = none` is the initial `inf`):
+
+    while abs(delta) > abs(penalty) * em_reltol:
+        if itt > em_maxitt: break
+        delta = 1 / np.mean(shape / (rate + penalty)) - penalty
+        penalty += delta; itt += 1
+-/
+def emCont (pen reltol : α) : Option α → Bool
+  | none => true
+  | some d => decide (absA pen * reltol < absA d)
+
+def emGo (ofNat : Nat → α) (shape rate : List α) (reltol : α) (maxitt : Nat) :
+    Nat → Nat → α → Option α → α
+  | 0, _, pen, _ => pen
+  | fuel + 1, itt, pen, delta =>
+    if emCont pen reltol delta then
+      if maxitt < itt then pen
+      else
+        let d := 1 / meanL ofNat (List.zipWith (fun sh r => sh / (r + pen)) shape rate) - pen
+        emGo ofNat shape rate reltol maxitt fuel (itt + 1) (pen + d) (some d)
+    else pen
+
+/-- the regularisation penalty fitted by `propagate_prior` to the cavities of the free nodes -/
+def priorPenalty (ofNat : Nat → α) (cavs : List (α × α)) (reltol : α) (maxitt : Nat) : α :=
+  let shape := cavs.map (fun x => x.1 + 1)
+  let rate := cavs.map (fun x => x.2)
+  let pen0 := 1 / meanL ofNat (List.zipWith (· / ·) shape rate)
+  emGo ofNat shape rate reltol maxitt (maxitt + 2) 0 pen0 none
+
+/-- the update of one node in `propagate_prior`; `x = ((posterior, node factor), (cavity, scale))` -/
+def priorNodeUpd (maxShape pen : α) (x : ((α × α) × (α × α)) × ((α × α) × α)) (fr : Bool) :
+    (α × α) × (α × α) × α :=
+  if fr then
+    let np : α × α := (x.1.1.1, x.2.1.2 + pen)
+    let fac := div2 (sub2 np x.2.1) x.2.2
+    let eta := rescaleEta np maxShape
+    (sc2 eta np, fac, x.2.2 * eta)
+  else (x.1.1, x.1.2, x.2.2)
+
+/-- cavities `posterior - factor[:, MIXPRIOR] * scale[:, newaxis]` -/
+def priorCavities (s : EPState α) : List (α × α) :=
+  List.zipWith (fun pf sc => sub2 pf.1 (sc2 sc pf.2)) (s.post.zip s.nodeFac) s.scale
+
+/-- `propagate_prior(free, posterior, factors, max_shape, em_maxitt, em_reltol)` -/
+def propagatePrior (ofNat : Nat → α) (free : List Bool) (maxShape reltol : α) (maxitt : Nat)
+    (s : EPState α) : EPState α :=
+  if !(free.any id) then s
+  else
+    let cav := priorCavities s
+    let freeCav := ((cav.zip free).filter (fun x => x.2)).map (fun x => x.1)
+    let pen := priorPenalty ofNat freeCav reltol maxitt
+    let rows := List.zipWith (priorNodeUpd maxShape pen) ((s.post.zip s.nodeFac).zip (cav.zip s.scale)) free
+    { s with
+      post := rows.map (fun r => r.1)
+      nodeFac := rows.map (fun r => r.2.1)
+      scale := rows.map (fun r => r.2.2) }
+
+/-- `ExpectationPropagation.iterate` (phased singletons): likelihood pass over `edge_order`, optional
+`propagate_prior` on the unconstrained roots, `_rescale_factors`. -/
+def epIterate (P : Projections α) (ofNat : Nat → α) (edges : List (Nat × Nat)) (lik : List (α × α))
+    (fixedAge : List (Option α)) (roots : List Bool) (regularise : Bool)
+    (maxShape minStep tiny reltol : α) (maxitt : Nat) (order : List Nat) (s : EPState α) : EPState α :=
+  let s1 := likelihoodPass P edges lik fixedAge maxShape minStep tiny order s
+  let s2 := if regularise then propagatePrior ofNat roots maxShape reltol maxitt s1 else s1
+  rescaleFactors edges s2
+
+/-- `ep_iterations` rounds -/
+def epRun (P : Projections α) (ofNat : Nat → α) (edges : List (Nat × Nat)) (lik : List (α × α))
+    (fixedAge : List (Option α)) (roots : List Bool) (regularise : Bool)
+    (maxShape minStep tiny reltol : α) (maxitt : Nat) (order : List Nat) : Nat → EPState α → EPState α
+  | 0, s => s
+  | n + 1, s =>
+    epRun P ofNat edges lik fixedAge roots regularise maxShape minStep tiny reltol maxitt order n
+      (epIterate P ofNat edges lik fixedAge roots regularise maxShape minStep tiny reltol maxitt order s)
+
+/-- `node_moments`: fixed nodes keep their age with zero variance; free nodes get
+`mn = (alpha + 1)/beta`, `va = mn/beta`. -/
+def nodeMoments (fixedAge : List (Option α)) (post : List (α × α)) : List (α × α) :=
+  List.zipWith (fun fa p =>
+    match fa with
+    | some t => (t, 0)
+    | none => let mn := (p.1 + 1) / p.2; (mn, mn / p.2)) fixedAge post
+
+end EP
+
 /-! ## 2. variational method: mutational target sizes -/
 
 section VLik
